@@ -135,6 +135,13 @@ def depth1():
     for s in (0, 3, 5, -1):
         yield ('Pconst', s, 2)
         yield ('Pconst', s, 2, 0.001)
+    # decimal steps whose binary partial sums land just below the target: the
+    # tolerance must make the stream end exactly where the exact sum is reached
+    yield ('Pconst', 1.0, 0.1)
+    yield ('Pconst', 1.0, 0.1, 0.001)
+    yield ('Pconst', 1, ('Pseq', [0.7, 0.1, 0.1, 0.1, 5], 1, 0))
+    yield ('Pconst', 0.3, ('Pseq', [0.1, 0.2, 4], 1, 0))
+    yield ('Pconst', 2.4, 0.3, 0.01)
     for w in (0, 1, 2):
         yield ('Pswitch', [1, 2, 3], w)
         yield ('Pswitch1', [1, 2, 3], w)
